@@ -1547,9 +1547,18 @@ impl StreamingQueueCompressor {
         // Register contig in collection
         {
             let mut collection = self.collection.lock().unwrap();
-            collection
+            let newly_registered = collection
                 .register_sample_contig(&sample_name, &contig_name)
                 .context("Failed to register contig")?;
+            // A second record with the same name in one sample would be merged into the first
+            // contig's descriptor (an archive that lists the sample but cannot be extracted)
+            if !newly_registered {
+                anyhow::bail!(
+                    "Duplicate contig name '{}' in sample '{}': contig names must be unique within a sample",
+                    contig_name,
+                    sample_name
+                );
+            }
         }
 
         // Set first sample as reference (multi-file mode)
